@@ -188,6 +188,7 @@ func runC01(p *P, r *R) {
 		return constructHas(o, "free-list header", "slot header", "(bufferHeader)", "stride", "initial tail", "newBufferSlice")
 	})
 	c01FreshMemory(p, r, fr)
+	c01Windows(p, r, H)
 	abaRule(p, r, "R01.9")
 	// R01.10 nobody but the holder touches a slot header: a chain walker does not use a slice's header after it gave the slice back
 	linkReadBeforeRecycle(p, r, "R01.10")
@@ -616,4 +617,97 @@ func c01FreshMemory(p *P, r *R, fr freeListRoles) {
 			"a creator run on a region that is already in use re-issues every held buffer: %s", p.pathString(res))
 	}
 	r.count("R01.12", "functions that map memory and create free lists in it", n, 2)
+}
+
+// c01Windows (R01.13): wherever a descriptor of a shared-memory slot is built (newBufferSlice(..., isFromShm=true)), the
+// payload window handed to it starts right behind the slot header and ends exactly one capacity later, the capacity
+// being the list's capPerBuffer or the capacity word of that very slot's header. A window that is longer than the slot
+// lets a writer of this buffer run over the headers and payloads of its neighbours.
+func c01Windows(p *P, r *R, H int64) {
+	mk := p.fn("newBufferSlice")
+	if mk == nil {
+		r.fail("R01.13", "anchor newBufferSlice", "", "not found")
+		return
+	}
+	capOff, _ := p.pkgConstInt("bufferCapOffset")
+	n := 0
+	for _, f := range p.fnList {
+		for _, ci := range findInstrs(f, p.mCall("newBufferSlice")) {
+			c := ci.(*ssa.Call)
+			if k, ok := c.Call.Args[3].(*ssa.Const); !ok || k.Value == nil || k.Value.String() != "true" {
+				continue
+			}
+			n++
+			fn := p.fname(f)
+			hb, lh, _, _, okh := flatSlice(c.Call.Args[0])
+			db, ld, hd, hasHi, okd := flatSlice(c.Call.Args[1])
+			ok, detail := false, ""
+			switch {
+			case !okh || !okd:
+				detail = "header / payload argument is not a slice expression of the mapped memory"
+			case !hasHi:
+				detail = "the payload window has no upper bound (extends to the end of the mapping)"
+			case !sameExpr(hb, db, 4):
+				detail = "header and payload are cut from different memory"
+			default:
+				if d, isC := ld.add(lh, -1).isConst(); !isC || d != H {
+					detail = "the payload does not start bufferHeaderSize behind the header"
+					break
+				}
+				atom, single := hd.add(ld, -1).singleAtom()
+				if !single {
+					detail = "the payload length is not a single capacity value: " + hd.add(ld, -1).String()
+					break
+				}
+				if atom == "load:*bufferList.capPerBuffer" {
+					ok = true
+					break
+				}
+				// the capacity word of this very slot: a 4-byte raw load at header.low + bufferCapOffset from the same memory
+				for _, a := range rawAccesses(f) {
+					if a.Kind != "load" || a.Width != 4 || valKey(a.Val) != atom || !sameExpr(a.Base, hb, 4) {
+						continue
+					}
+					idx := linConst(a.K)
+					if a.Sym != nil {
+						idx = idx.add(symLin(a.Sym, 6), 1)
+					}
+					if d, isC := idx.add(lh, -1).isConst(); isC && d == capOff {
+						ok = true
+					}
+				}
+				if !ok {
+					detail = "the payload length is neither the list's capPerBuffer nor the slot's own capacity word"
+				}
+			}
+			r.ob("R01.13", fn+": a shared-memory descriptor's payload window is exactly [header+H, header+H+capacity)", p.ipos(ci), ok, true, "%s", detail)
+		}
+	}
+	r.count("R01.13", "constructions of shared-memory descriptors", n, 2)
+}
+
+// flatSlice resolves nested slice expressions (`buf := mem[a:b]; buf[c:]`) to one window of the innermost base:
+// base[lo:hi] with lo, hi as linear terms; hasHi is false when the window extends to the end of the base.
+func flatSlice(v ssa.Value) (base ssa.Value, lo, hi lin, hasHi, ok bool) {
+	sl, isS := sliceBase(v)
+	if !isS {
+		return nil, lin{}, lin{}, false, false
+	}
+	lo = symLin(sl.Low, 6) // nil Low = 0
+	if sl.High != nil {
+		hi, hasHi = symLin(sl.High, 6), true
+	}
+	if _, inner := sliceBase(sl.X); inner {
+		b2, lo2, hi2, has2, ok2 := flatSlice(sl.X)
+		if !ok2 {
+			return nil, lin{}, lin{}, false, false
+		}
+		if hasHi {
+			hi = hi.add(lo2, 1)
+		} else if has2 {
+			hi, hasHi = hi2, true
+		}
+		return b2, lo.add(lo2, 1), hi, hasHi, true
+	}
+	return sl.X, lo, hi, hasHi, true
 }
